@@ -782,138 +782,194 @@ def c5(repo: Repo) -> RuleResult:
                 f.part = lang
                 res.bad(f)
 
-    # converter table: style name -> function
+    # converter table: style name -> function, evaluated through from_name() and converter()
+    from .emit import block_flow, emitted
+    from .flows import compiler_flow
+    from .normal import C as K, V, show
+    from .pyflow import S as STR, single_atom
+    from .rules_d3 import _ret_shapes
+
     fm = m.mod("renderer/formatter.py")
     cs = fm.classes.get("CaseStyle")
-    if cs is None:
-        res.unsure("C5: CaseStyle vanished")
+    if cs is None or "converter" not in cs.methods or "from_name" not in cs.methods:
+        res.unsure("C5: CaseStyle.from_name / converter vanished")
     else:
-        conv = cs.methods.get("converter")
-        fn = cs.methods.get("from_name")
-        pairs = {}
-        if conv is not None:
-            for n in ast.walk(conv.node):
-                if isinstance(n, ast.If) and isinstance(n.test, ast.Compare) and n.body and isinstance(n.body[0], ast.Return):
-                    pairs[src_of(n.test.comparators[0]).split(".")[-1]] = src_of(n.body[0].value)
-        names = {}
-        if fn is not None:
-            for n in ast.walk(fn.node):
-                if isinstance(n, ast.Dict):
-                    for k, v in zip(n.keys, n.values):
-                        if isinstance(k, ast.Constant):
-                            names[k.value] = src_of(v).split(".")[-1]
-        res.inst(part="common", converters=pairs, names=names)
-        want = {"snake": "snake_case", "upper": "upper_case", "pascal": "pascal_case"}
+        want = {"snake": "snake_case", "upper": "upper_case", "pascal": "pascal_case", "keep": "keep_case", "no-such-style": "keep_case"}
+        resolved: Dict[str, Any] = {}
+        try:
+            fl = compiler_flow(repo, "CaseStyle", "renderer/formatter.py")
+            fn_from, fn_conv = cs.methods["from_name"].node, cs.methods["converter"].node
+            pn = [a.arg for a in fn_from.args.args]
+            for nme in want:
+                members = sorted({show(p_.ret) for p_ in fl.run(fn_from, {pn[0]: V("cls"), pn[1]: STR(nme)}) if p_.done == "return" and p_.ret is not None})
+                if len(members) != 1:
+                    resolved[nme] = f"<{len(members)} members>"
+                    continue
+                mv = [p_.ret for p_ in fl.run(fn_from, {pn[0]: V("cls"), pn[1]: STR(nme)}) if p_.done == "return"][0]
+                funcs = sorted({show(p_.ret) for p_ in fl.run(fn_conv, {fn_conv.args.args[0].arg: mv}) if p_.done == "return" and p_.ret is not None})
+                resolved[nme] = funcs[0] if len(funcs) == 1 else f"<{len(funcs)} converters: {funcs}>"
+        except Inconclusive as e:
+            res.unsure(f"C5: CaseStyle: {e}")
+        res.inst(part="common", resolved=resolved)
         for nme, fnn in want.items():
-            member = names.get(nme)
-            if member is None or pairs.get(member) != fnn:
-                f = Finding("C5", fm.rel, cs.node.lineno, "CaseStyle", f"{nme} -> {member} -> {pairs.get(member) if member else None}", f"style name {nme!r} does not resolve to {fnn}()", tag=f"CaseStyle:{nme}")
-                f.part = "common"
-                res.bad(f)
+            got = resolved.get(nme)
+            if got == fnn:
+                continue
+            if got is None or got.startswith("<"):
+                res.unsure(f"C5: CaseStyle: style name {nme!r} resolves to {got}")
+                continue
+            f = Finding("C5", fm.rel, cs.node.lineno, "CaseStyle", f"{nme} -> {got}", f"style name {nme!r} does not resolve to {fnn}()" + (f" (it resolves to {got}())" if got else ""), witness="a table entry 'snake' converts names with another function", tag=f"CaseStyle:{nme}")
+            f.part = "common"
+            res.bad(f)
 
     # nested names: prefix + enclosing names outermost first + own name
     fi = m.func("renderer/formatter.py", "Formatter._format_definition_name_inner_proto")
-    txt = src_of(fi.node)
     res.inst(part="common", where=fi.qual)
-    loops = [n for n in ast.walk(fi.node) if isinstance(n, ast.For)]
-    ok_order = False
-    for lp in loops:
-        rev = src_of(lp.iter).endswith("[::-1]") or src_of(lp.iter).startswith("reversed(")
-        body = " ".join(src_of(s) for s in lp.body)
-        if rev and "items.insert(0," in body:
-            ok_order = True
-        if (not rev) and "items.append(" in body and "namespaces" in src_of(lp.iter):
-            ok_order = True
-    if not ok_order:
-        f = Finding("C5", fi.rel, fi.node.lineno, fi.qual, "", "enclosing scope names are not joined outermost first before the definition's own name", witness="message Zoo { message Cage { message Monkey {} } } must be Zoo_Cage_Monkey", tag="inner_proto:order")
-        f.part = "common"
-        res.bad(f)
-    if "items: List[str] = [definition_name]" not in txt and "items = [definition_name]" not in txt:
-        res.unsure("C5: _format_definition_name_inner_proto: own name is not the seed of the joined list")
-    if "name = prefix + self.delimer_inner_proto().join(items)" not in txt or "name = prefix + definition_name" not in txt:
-        f = Finding("C5", fi.rel, fi.node.lineno, fi.qual, "", "the name is not prefix + joined names (prefix in front, once)", tag="inner_proto:prefix")
-        f.part = "common"
-        res.bad(f)
+    try:
+        strs = ("_get_definition_name_prefix", "_get_definition_name", "delimer_inner_proto")
+        fl = compiler_flow(repo, "Formatter", "renderer/formatter.py", inline=lambda n_, f_: False, stringy_calls=strs, pure=strs + ("scopes_with_namespace",))
+        paths = [p_ for p_ in fl.run(fi.node, {"self": V("self"), fi.node.args.args[1].arg: V("d")}) if p_.done == "return" and p_.ret is not None]
+        PRE = "self._get_definition_name_prefix(d)"
+        OWN = "self._get_definition_name(d)"
+        for p_ in paths:
+            shape = show(p_.ret)
+            a_ = single_atom(p_.ret)
+            parts = list(a_[1]) if a_ is not None and a_[0] == "tpl" else None
+            if parts is None or not parts or isinstance(parts[0], str) or show(parts[0]) != PRE or shape.count(PRE) != 1:
+                if PRE in shape or OWN in shape:
+                    f = Finding("C5", fi.rel, fi.node.lineno, fi.qual, shape, "the name is not prefix + joined names (prefix in front, once)", witness="c.name_prefix = \"My\": struct names come out without / with a misplaced prefix", tag="inner_proto:prefix")
+                    f.part = "common"
+                    res.bad(f)
+                else:
+                    res.unsure(f"C5: {fi.qual}: returned value `{shape}` not recognised")
+                continue
+            loops = [e for e in p_.effects if e.kind == "loop"]
+            if not loops:
+                if OWN not in shape:
+                    res.unsure(f"C5: {fi.qual}: a path returns `{shape}` without the definition's own name")
+                continue
+            lp = loops[0]
+            it = show(lp.args[0]) if lp.args else ""
+            rev = it.endswith("[::-1]") or it.startswith("reversed(")
+            ins = [c_ for b_ in (lp.sub or []) for c_ in b_.effects if c_.kind == "call" and c_.name in ("insert", "append")]
+            kinds = {(c_.name, show(c_.args[0]) if c_.name == "insert" and c_.args else "") for c_ in ins}
+            front = kinds == {("insert", "0")}
+            back = kinds == {("append", "")}
+            if (rev and front) or ((not rev) and back and "namespace" in it):
+                pass
+            elif (rev and back) or ((not rev) and front):
+                f = Finding("C5", fi.rel, fi.node.lineno, fi.qual, f"iterates {it}; {sorted(kinds)}", "enclosing scope names are not joined outermost first before the definition's own name", witness="message Zoo { message Cage { message Monkey {} } } must be Zoo_Cage_Monkey", tag="inner_proto:order")
+                f.part = "common"
+                res.bad(f)
+            else:
+                res.unsure(f"C5: {fi.qual}: enclosing names are collected by `{it}` / {sorted(kinds)}: order not recognised")
+    except Inconclusive as e:
+        res.unsure(f"C5: {fi.qual}: {e}")
 
     # API name templates
-    def expect_return(relsfx: str, qual: str, wants: Tuple[str, ...], part: str, what: str) -> None:
+    def expect_return(relsfx: str, cn: str, meth: str, wants: Tuple[str, ...], part: str, what: str) -> None:
+        qual = f"{cn}.{meth}"
         try:
             f2 = m.func(relsfx, qual)
+            rets = _ret_shapes(repo, cn, relsfx, meth, pure=("upper_case", "snake_case", "pascal_case"))
         except Inconclusive as e:
             res.unsure(f"C5: {e}")
             return
-        from .rules_b import _fstring_shape
-
-        rets = [_fstring_shape(n.value) for n in ast.walk(f2.node) if isinstance(n, ast.Return) and n.value is not None]
         res.inst(part=part, where=qual, template=rets)
         if not rets or not all(r in wants for r in rets):
             f = Finding("C5", f2.rel, f2.node.lineno, qual, str(rets), f"{what}: template is {rets}, documented {list(wants)}", tag=f"{qual}:template")
             f.part = part
             res.bad(f)
 
-    expect_return("impls/c/renderer_h.py", "BlockMessageEncoderBase.function_name", ("Encode{self.message_name}",), "c", "C encoder name")
-    expect_return("impls/c/renderer_h.py", "BlockMessageDecoderBase.function_name", ("Decode{self.message_name}",), "c", "C decoder name")
-    expect_return("impls/c/renderer_h.py", "BlockMessageJsonFormatterBase.function_name", ("Json{self.message_name}",), "c", "C json function name")
-    expect_return("renderer/block.py", "BlockBindMessage.message_size_constant_name", ("BYTES_LENGTH_{upper_case(snake_case(self.message_name))}",), "common", "size constant name")
-    expect_return("impls/py/renderer.py", "BlockMessageBase.message_size_constant_name", ("BYTES_LENGTH",), "py", "Python size constant name")
-    expect_return("renderer/block.py", "BlockBindMessage.message_name", ("{self.formatter.format_message_name(self.d)}",), "common", "message name")
-    expect_return("impls/c/formatter.py", "CFormatter.format_message_type", ("struct {0}.format(self.format_message_name(t))", "struct {self.format_message_name(t)}"), "c", "C struct type") if False else None
+    expect_return("impls/c/renderer_h.py", "BlockMessageEncoderBase", "function_name", ("Encode{self.message_name}",), "c", "C encoder name")
+    expect_return("impls/c/renderer_h.py", "BlockMessageDecoderBase", "function_name", ("Decode{self.message_name}",), "c", "C decoder name")
+    expect_return("impls/c/renderer_h.py", "BlockMessageJsonFormatterBase", "function_name", ("Json{self.message_name}",), "c", "C json function name")
+    expect_return("renderer/block.py", "BlockBindMessage", "message_size_constant_name", ("BYTES_LENGTH_{upper_case(snake_case(self.message_name))}",), "common", "size constant name")
+    expect_return("impls/py/renderer.py", "BlockMessageBase", "message_size_constant_name", ("BYTES_LENGTH",), "py", "Python size constant name")
+    expect_return("renderer/block.py", "BlockBindMessage", "message_name", ("{self.formatter.format_message_name(self.d)}",), "common", "message name")
 
     # output file name
     fo = m.func("renderer/formatter.py", "Formatter.format_out_filename")
-    t = src_of(fo.node)
-    res.inst(part="common", where=fo.qual)
-    ok = "out_filename = out_base_name + '_bp' + extension" in t and "os.path.splitext(proto_base_name)[0]" in t and "proto_base_name = os.path.basename(proto.filepath)" in t
-    if not ok:
-        f = Finding("C5", fo.rel, fo.node.lineno, fo.qual, "", "the output file name is not <schema file base name> + '_bp' + extension", witness="foo.bitproto -> foo_bp.h", tag="out_filename")
-        f.part = "common"
-        res.bad(f)
-    for lang, relsfx, cn, ext in (("c", "impls/c/renderer_c.py", "RendererC", ".c"), ("c", "impls/c/renderer_h.py", "RendererCHeader", ".h"), ("go", "impls/go/renderer.py", "RendererGo", ".go"), ("py", "impls/py/renderer.py", "RendererPy", ".py")):
+    pa = [a.arg for a in fo.node.args.args]
+    ext = pa[2] if len(pa) > 2 else "extension"
+    from .pyflow import tpl_shape
+
+    shapes: List[Tuple[Optional[bool], str]] = []
+    try:
+        fl = compiler_flow(repo, "Formatter", "renderer/formatter.py", inline=lambda n_, f_: False, pure=("basename", "splitext"))
+        for p_ in fl.run(fo.node):
+            if p_.done != "return" or p_.ret is None:
+                continue
+            has_path = None
+            for k_, t_ in p_.guards:
+                if k_[0] in ("truthy", "isnone") and show(k_[1]) == "proto.filepath":
+                    has_path = t_ if k_[0] == "truthy" else (not t_)
+            shapes.append((has_path, tpl_shape(p_.ret) or "{" + show(p_.ret) + "}"))
+    except Inconclusive as e:
+        res.unsure(f"C5: {fo.qual}: {e}")
+    res.inst(part="common", where=fo.qual, shapes=shapes)
+    from_file = "{os.path.splitext(os.path.basename(proto.filepath))[0]}_bp{%s}" % ext
+    from_name = "{proto.name}_bp{%s}" % ext
+    for has_path, shp in shapes:
+        ok_ = shp == from_file if has_path is not False else shp == from_name
+        if ok_:
+            continue
+        if shp == from_name or "_bp" not in shp or not shp.endswith("{%s}" % ext) or "basename" not in shp:
+            f = Finding("C5", fo.rel, fo.node.lineno, fo.qual, shp, "the output file name is not <schema file base name> + '_bp' + extension" + (" (the proto's name is used although the file path is known)" if shp == from_name else ""), witness="foo.bitproto with `proto bar` -> foo_bp.h", tag="out_filename")
+            f.part = "common"
+            res.bad(f)
+        else:
+            res.unsure(f"C5: {fo.qual}: returned shape {shp} not recognised")
+    for lang, relsfx, cn, ext_ in (("c", "impls/c/renderer_c.py", "RendererC", ".c"), ("c", "impls/c/renderer_h.py", "RendererCHeader", ".h"), ("go", "impls/go/renderer.py", "RendererGo", ".go"), ("py", "impls/py/renderer.py", "RendererPy", ".py")):
         f2 = m.func(relsfx, f"{cn}.file_extension")
-        got = [n.value.value for n in ast.walk(f2.node) if isinstance(n, ast.Return) and isinstance(n.value, ast.Constant)]
+        try:
+            got = _ret_shapes(repo, cn, relsfx, "file_extension")
+        except Inconclusive:
+            got = [n.value.value for n in ast.walk(f2.node) if isinstance(n, ast.Return) and isinstance(n.value, ast.Constant)]
         res.inst(part=lang, where=f2.qual, extension=got)
-        if got != [ext]:
-            f = Finding("C5", f2.rel, f2.node.lineno, f2.qual, str(got), f"file extension is {got}, documented {ext}", tag=f"{cn}:ext")
+        if got != [ext_]:
+            f = Finding("C5", f2.rel, f2.node.lineno, f2.qual, str(got), f"file extension is {got}, documented {ext_}", tag=f"{cn}:ext")
             f.part = lang
             res.bad(f)
 
-    # Go: JSON tag = snake(field name); Go/Py API method names
-    gm = m.mod("impls/go/renderer.py")
-    gtxt = {c.name: src_of(c.node) for c in gm.classes.values()}
+    # Go: JSON tag = snake(field name); Go/Py API method names - from what the blocks push
+    def lines_of(cn: str, relsfx: str, fcn: str, frel: str) -> List[str]:
+        c_ = m.cls(cn, relsfx)
+        out: List[str] = []
+        for meth in ("render", "before", "after"):
+            fn_ = m.lookup(c_, meth)
+            if fn_ is None or fn_.cls is None or not fn_.cls.rel.endswith(relsfx):
+                continue
+            flow = block_flow(repo, cn, relsfx, fcn, frel, {}, keep=("format_comment", "format_docstring", "format_message_name", "format_type", "format_message_field_name", "format_int_value"), pure=("snake_case", "upper_case", "pascal_case"))
+            ems, _, _ = emitted(flow, fn_.node)
+            for e_ in ems:
+                out.extend(t for _, t in e_)
+        return out
+
+    sq = lambda x: "".join(x.split())
     checks = [
-        ("go", "BlockMessageField", ["snake_case_name = snake_case(self.message_field_name)", '`json:"{snake_case_name}"`'], "Go struct field JSON tag = snake_case(field name)"),
-        ("go", "BlockMessageMethodEncode", ["func (m *{self.message_name}) Encode() []byte {{"], "Go Encode method"),
-        ("go", "BlockMessageMethodDecode", ["func (m *{self.message_name}) Decode(s []byte) {{"], "Go Decode method"),
-        ("go", "BlockMessageMethodSize", ["func (m *{self.message_name}) Size() uint32 {{"], "Go Size method"),
+        ("go", "BlockMessageField", ['`json:"{snake_case(self.message_field_name)}"`'], "Go struct field JSON tag = snake_case(field name)"),
+        ("go", "BlockMessageMethodEncode", ["func (m *{self.message_name}) Encode() []byte {"], "Go Encode method"),
+        ("go", "BlockMessageMethodDecode", ["func (m *{self.message_name}) Decode(s []byte) {"], "Go Decode method"),
+        ("go", "BlockMessageMethodSize", ["func (m *{self.message_name}) Size() uint32 {"], "Go Size method"),
         ("go", "BlockMessageSizeConst", ["const {self.message_size_constant_name} uint32 = {self.message_nbytes}"], "Go size constant"),
+        ("py", "BlockMessageMethodEncode", ["def encode(self) -> bytearray:"], "Python encode method"),
+        ("py", "BlockMessageMethodDecode", ["def decode(self, s: bytearray) -> None:"], "Python decode method"),
+        ("py", "BlockMessageClass", ["class {self.message_name}(bp.MessageBase):"], "Python message class derives bp.MessageBase (to_json/to_dict)"),
     ]
     for lang, cn, needles, what in checks:
-        src = gtxt.get(cn)
+        relsfx = f"impls/{lang}/renderer.py"
+        frel, fcn = FORMATTERS[lang]
         res.inst(part=lang, where=cn, what=what)
-        if src is None:
-            res.unsure(f"C5: go renderer class {cn} vanished")
+        try:
+            lines = lines_of(cn, relsfx, fcn, frel)
+        except Inconclusive as e:
+            res.unsure(f"C5: {lang} renderer class {cn}: {e}")
             continue
         for nd in needles:
-            if nd not in src:
-                f = Finding("C5", gm.rel, gm.classes[cn].node.lineno, cn, nd, f"{what}: expected template piece `{nd}` not emitted", tag=f"{cn}:{nd[:30]}")
+            if not any(sq(nd) in sq(t) for t in lines):
+                f = Finding("C5", m.mod(relsfx).rel, m.cls(cn, relsfx).node.lineno, cn, nd, f"{what}: expected template piece `{nd}` not emitted (emitted: {lines[:3]})", tag=f"{cn}:{nd[:30]}")
                 f.part = lang
-                res.bad(f)
-    pm = m.mod("impls/py/renderer.py")
-    ptxt = {c.name: src_of(c.node) for c in pm.classes.values()}
-    for cn, needles, what in (
-        ("BlockMessageMethodEncode", ["def encode(self) -> bytearray:"], "Python encode method"),
-        ("BlockMessageMethodDecode", ["def decode(self, s: bytearray) -> None:"], "Python decode method"),
-        ("BlockMessageClass", ["class {self.message_name}(bp.MessageBase):"], "Python message class derives bp.MessageBase (to_json/to_dict)"),
-    ):
-        src = ptxt.get(cn)
-        res.inst(part="py", where=cn, what=what)
-        if src is None:
-            res.unsure(f"C5: py renderer class {cn} vanished")
-            continue
-        for nd in needles:
-            if nd not in src:
-                f = Finding("C5", pm.rel, pm.classes[cn].node.lineno, cn, nd, f"{what}: expected template piece `{nd}` not emitted", tag=f"{cn}:{nd[:30]}")
-                f.part = "py"
                 res.bad(f)
     bp = m.mod("bitprotolib/bp.py")
     mb = bp.classes.get("MessageBase")
@@ -927,19 +983,22 @@ def c5(repo: Repo) -> RuleResult:
     gp = m.func("renderer/formatter.py", "Formatter._get_definition_name_prefix")
     res.inst(part="common", where=gp.qual)
     recv_src = None
-    for n in ast.walk(gp.node):
-        if isinstance(n, ast.Call) and isinstance(n.func, ast.Attribute) and n.func.attr == "get_option_as_string_or_raise":
-            r = n.func.value
-            if isinstance(r, ast.Name):
-                vals = [src_of(a.value) for a in ast.walk(gp.node) if isinstance(a, ast.Assign) and any(isinstance(t, ast.Name) and t.id == r.id for t in a.targets)]
-                recv_src = vals[0] if len(vals) == 1 else "?"
-            else:
-                recv_src = src_of(r)
+    reads_option = False
+    try:
+        fl = compiler_flow(repo, "Formatter", "renderer/formatter.py", inline=lambda n_, f_: False, pure=("definition_name_prefix_option_name",))
+        for p_ in fl.run(gp.node, {"self": V("self"), gp.node.args.args[1].arg: V("d")}):
+            for e in p_.effects:
+                if e.kind == "call" and e.name == "get_option_as_string_or_raise":
+                    recv_src = show(e.recv) if e.recv is not None else "?"
+                    if e.args and show(e.args[0]) == "self.definition_name_prefix_option_name()":
+                        reads_option = True
+    except Inconclusive as e:
+        res.unsure(f"C5: {gp.qual}: {e}")
     if recv_src is not None and not recv_src.endswith(".bound"):
         f = Finding("C5", gp.rel, gp.node.lineno, gp.qual, str(recv_src), f"the name prefix is read from `{recv_src}`, not from the proto the definition is bound to: an imported definition is named with another file's prefix in the importing file", witness="two files with different c.name_prefix, one importing the other: the importer refers to struct names the imported header does not declare", tag="prefix:owner")
         f.part = "common"
         res.bad(f)
-    if "get_option_as_string_or_raise(option_name)" not in src_of(gp.node) or "self.definition_name_prefix_option_name()" not in src_of(gp.node):
+    if not reads_option:
         f = Finding("C5", gp.rel, gp.node.lineno, gp.qual, "", "the name prefix is not read from the bound proto's prefix option", tag="prefix:source")
         f.part = "common"
         res.bad(f)
